@@ -90,6 +90,21 @@ def inputs(ctx):
     for _ in range(500 if ctx.quick else 5000):
         ins.append({"id": "pr%d" % n, "k": "pair", "a": rng.choice(allv), "b": rng.choice(allv)})
         n += 1
+    # the same value obtained in different ways - built from numbers, parsed from text (two spellings),
+    # produced by relativizing - compares and hashes alike; different values stay different
+    hows = [("built", "parsed"), ("parsed", "parsed0"), ("built", "relativized"), ("parsed", "relativized"), ("parsed", "built")]
+    for k, v in enumerate(allv):
+        if v[0] == "align":
+            continue
+        for ha, hb in (hows if not ctx.quick else [hows[k % len(hows)], hows[(k + 2) % len(hows)]]):
+            ins.append({"id": "pr%d" % n, "k": "pair", "a": v, "b": v, "ha": ha, "hb": hb})
+            n += 1
+    for _ in range(400 if ctx.quick else 5000):
+        a = rng.choice(allv)
+        b = rng.choice([x for x in allv if x[0] == a[0]])
+        ha, hb = rng.choice(hows)
+        ins.append({"id": "pr%d" % n, "k": "pair", "a": a, "b": b, "ha": ha, "hb": hb})
+        n += 1
     # values that differ only from some decimal on (an equality that compares printed or rounded
     # values calls them equal), alone and inside every composite
     near = []
@@ -140,25 +155,38 @@ def inputs(ctx):
     return ins
 
 
-def _mk(v):
+def _mk(v, how="built"):
+    """how: "built" (numbers handed to the constructors), "parsed" (every size through Size.from_string,
+    spelled as a plain decimal), "parsed0" (the same with a trailing ".0" / extra zero), "relativized"
+    (percent sizes obtained from as_percentage_of of an equal px value on a 100 px reference)"""
     from pycaption.geometry import (Alignment, HorizontalAlignmentEnum, Layout, Padding, Point, Size,
                                     Stretch, UnitEnum, VerticalAlignmentEnum)
     if v is None:
         return None
     c = v[0]
     if c == "size":
-        return Size(float(Fraction(v[1])), UnitEnum(v[2]))
+        f = Fraction(v[1])
+        if how in ("parsed", "parsed0"):
+            text = str(f.numerator) if f.denominator == 1 else repr(float(f))
+            if "e" in text or "E" in text:
+                return Size(float(f), UnitEnum(v[2]))
+            if how == "parsed0":
+                text = text + (".0" if "." not in text else "0")
+            return Size.from_string(text + v[2])
+        if how == "relativized" and v[2] == "%" and f.denominator in (1, 2, 4):
+            return Size(float(f), UnitEnum.PIXEL).as_percentage_of(video_width=100)
+        return Size(float(f), UnitEnum(v[2]))
     if c == "point":
-        return Point(_mk(v[1]), _mk(v[2]))
+        return Point(_mk(v[1], how), _mk(v[2], how))
     if c == "stretch":
-        return Stretch(_mk(v[1]), _mk(v[2]))
+        return Stretch(_mk(v[1], how), _mk(v[2], how))
     if c == "padding":
-        return Padding(before=_mk(v[1]), after=_mk(v[2]), start=_mk(v[3]), end=_mk(v[4]))
+        return Padding(before=_mk(v[1], how), after=_mk(v[2], how), start=_mk(v[3], how), end=_mk(v[4], how))
     if c == "align":
         return Alignment(HorizontalAlignmentEnum(v[1]) if v[1] else None,
                          VerticalAlignmentEnum(v[2]) if v[2] else None)
     if c == "layout":
-        return Layout(origin=_mk(v[1]), extent=_mk(v[2]), padding=_mk(v[3]), alignment=_mk(v[4]),
+        return Layout(origin=_mk(v[1], how), extent=_mk(v[2], how), padding=_mk(v[3], how), alignment=_mk(v[4], how),
                       webvtt_positioning=v[5])
     raise ValueError(c)
 
@@ -211,7 +239,7 @@ def execute(inp):
             rec["o"] = "other:" + type(e).__name__
         return rec
     if k == "pair":
-        a, b = _mk(inp["a"]), _mk(inp["b"])
+        a, b = _mk(inp["a"], inp.get("ha", "built")), _mk(inp["b"], inp.get("hb", "built"))
         return {"k": "pair", "a": _abs(inp["a"]), "b": _abs(inp["b"]), "eq": bool(a == b), "sym": bool(b == a),
                 "ne": bool(a != b), "heq": hash(a) == hash(b)}
     if k == "print":
